@@ -90,7 +90,7 @@ def run(tier):
                    'the package clause (Program <-> bytes through the derived bincode impls; refusal of truncated / trailing / corrupted files) is NOT under contract (derive macros and bincode are outside both verifiers): '
                    'it is EXECUTED by the runner c18pkg on programs the real front end emits (decode(encode(p)) == p, same bytes again, every proper prefix and a trailing byte refused, corrupted files decoded in a child process: never a crash): sampled',
                    'build-from-package == build-from-source', 'Dora-side readers (pkgs/boots/bytecode/reader.dora, deserializer.dora)',
-                   'jump tables (resolve_jump_tables / Switch targets live in the constant pool)', 'line-number table contents']
+                   'jump tables (add_const_jump_table / resolve_jump_tables: Switch targets live in the constant pool) are not under contract; the runner checks them on every generated sequence (sampled)', 'line-number table contents']
     pkg_v, pkg_info = _package_step(tier, pre_und)
     return vprop.run_verus_property(PROP, tier, units, runner=runner, assumptions=assumptions, samples=samples,
                                     not_decided=not_decided, pre_undecided=pre_und, pre_violations=pkg_v,
